@@ -88,7 +88,10 @@ if os.path.exists(sr):
     out.append('### 9.4 Seeded changes (independent sub-agents; one property text each, nothing from /verif)\n')
     out.append('| seed | property | the change (one line) | caught when first run | caught now | report (first line) |')
     out.append('|---|---|---|---|---|---|')
+    pres = [k for k in sorted(R) if R[k].get('kind') == 'preserving']
     for sid in sorted(R):
+        if sid in pres:
+            continue
         v = R[sid]
         meta = {}
         mp = os.path.join(HERE, 'seeded', sid, 'meta.json')
@@ -108,6 +111,28 @@ if os.path.exists(sr):
         out.append('| %s | %s | %s | %s | %s | %s |' % (sid, v['property'], md(meta.get('summary', ''))[:230], first_s,
                                                      ', '.join(v['caught_by']) or '**missed**', md(rep)[:200]))
     out.append('')
+    if pres:
+        out.append('### 9.4b Behaviour-preserving refactorings by independent sub-agents (must stay silent)\n')
+        out.append('| refactoring | property | what was refactored (one line) | first run | now |')
+        out.append('|---|---|---|---|---|')
+        for sid in pres:
+            v = R[sid]
+            meta = {}
+            mp = os.path.join(HERE, 'seeded', sid, 'meta.json')
+            if os.path.exists(mp):
+                meta = json.load(open(mp))
+            def verdict(r):
+                if r.get('caught_by'):
+                    return '**false alarm** (%s)' % ', '.join(r['caught_by'])
+                if r.get('broken'):
+                    return '**anchor lost** (%s exits 2)' % ', '.join(r['broken'])
+                return 'silent'
+            first = '?'
+            fr = os.path.join(HERE, 'seeded', sid, 'first_result.json')
+            if os.path.exists(fr):
+                first = verdict(json.load(open(fr)))
+            out.append('| %s | %s | %s | %s | %s |' % (sid, v['property'], md(meta.get('summary', ''))[:220], first, verdict(v)))
+        out.append('')
 text = '\n'.join(out)
 p = os.path.join(HERE, 'DESIGN.md')
 s = open(p).read()
